@@ -264,7 +264,13 @@ def r2(R):
 @rule('C08.R3', 'the pack-in-progress flag is tested and set in one critical '
       'section and reset on every exit after it was set', min_instances=2)
 def r3(R):
-    cls = R.prog.cls(FS)
+    for q, flagname in ((FS, '_pack_is_in_progress'),
+                        ('ZODB.blob.BlobStorage',
+                         '_blobs_pack_is_in_progress')):
+        _r3_one(R, R.prog.cls(q), flagname)
+
+
+def _r3_one(R, cls, FLAG):
     f = R.method(cls, 'pack')
     g, b, F = R.cfg(f, cls, max_depth=0)
     sets = [0]
@@ -277,14 +283,14 @@ def r3(R):
         if node.kind == 'test' and lab in ('T', 'F'):
             for e, truth in implied_atoms(node.ast, lab):
                 if dotted(e) and F.canon(e, node.frame) == (
-                        'self', '_pack_is_in_progress'):
+                        'self', FLAG):
                     if held and not truth:
                         tested = True
         if lab == 'e':
             return (flag, held, tested)
         for op in F.ops(node):
             if op.kind == 'store' and path_is(
-                    op.path, ('self', '_pack_is_in_progress')):
+                    op.path, ('self', FLAG)):
                 v = store_value(op)
                 val = bool(v.value) if isinstance(v, ast.Constant) else True
                 if val:
@@ -297,6 +303,13 @@ def r3(R):
                 elif not held:
                     return Violation('the pack-in-progress flag is reset '
                                      'without the storage lock')
+                elif not flag:
+                    return Violation(
+                        'the pack-in-progress flag is reset on a path on '
+                        'which this call never set it (the refusal of a '
+                        'second pack runs through the reset): the flag of '
+                        'the pack that IS running is cleared and a third '
+                        'request is admitted next to it')
                 flag = val
         return (flag, held, tested)
 
@@ -304,7 +317,7 @@ def r3(R):
         flag, held, tested = st
         if flag and node.id in (g.exit_return, g.exit_raise):
             return Violation(
-                'FileStorage.pack can leave (%s) with the pack-in-progress '
+                cls.name + '.pack can leave (%s) with the pack-in-progress '
                 'flag still set: every later pack is refused and the undo '
                 'log stays disabled until the process restarts' % (
                     'return' if node.id == g.exit_return else 'exception'))
@@ -312,8 +325,8 @@ def r3(R):
 
     vs, stats = explore(g, (False, 0, False), at=at, edge=edge)
     R.count(stats)
-    R.instance('FileStorage.pack flag set', sites=sets[0])
-    R.instance('FileStorage.pack exits', cfg_nodes=len(g.reachable()))
+    R.instance('%s.pack flag set' % cls.name, sites=sets[0])
+    R.instance('%s.pack exits' % cls.name, cfg_nodes=len(g.reachable()))
     R.require(vs or sets[0], 'the flag is never set')
     for v in vs:
         n = v.node
@@ -434,7 +447,7 @@ def r5(R):
 
 @rule('C08.R6', 'the packer decides that it has caught up from a read of the '
       'data file made while it holds the commit lock, after the last time it '
-      'let commits through', props=['C07'], min_instances=1)
+      'let commits through', props=['C07', 'C01'], min_instances=1)
 def r6(R):
     cls = R.prog.cls(PACKER)
     f = R.method(cls, 'pack')
@@ -575,3 +588,88 @@ def r7(R):
         elif n.id == g.exit_return:
             n = (f.module.relpath, f.qualname, 'handle at return')
         R.violation(n, v.message, g, v.path)
+
+
+# ------------------------------------------------------------------ C08.R8
+@rule('C08.R8', 'a record position read through a pooled file handle was '
+      'looked up in the index while that handle was checked out (the pack '
+      'swaps file and index together, excluding only checked-out readers)',
+      props=['C02'], min_instances=2)
+def r8(R):
+    cls = R.prog.cls(FS)
+    n = 0
+    for name in sorted(cls.methods):
+        f = cls.methods[name]
+        if not any(isinstance(c, ast.Call) and dotted(c.func) == (
+                'self', '_files', 'get') for c in walk_local(f.node)):
+            continue
+        n += 1
+        R.instance('FileStorage.%s' % name)
+        g, b, F = R.cfg(f, cls, max_depth=1)
+
+        def looks_up(e):
+            for c in ast.walk(e):
+                if isinstance(c, ast.Call) and dotted(c.func) and dotted(
+                        c.func)[-1] in ('_lookup_pos', '_index_get'):
+                    return True
+                if isinstance(c, ast.Call) and dotted(c.func) and dotted(
+                        c.func)[-2:] == ('_index', 'get'):
+                    return True
+                if isinstance(c, ast.Subscript) and dotted(c.value) == (
+                        'self', '_index'):
+                    return True
+            return False
+
+        def edge(node, st, lab, tgt, F=F):
+            out, kinds = st
+            if lab in ('e', 'eb'):
+                # leaving the with-region on an exception is handled by the
+                # inlined finally; positions do not matter there
+                pass
+            for op in F.ops(node):
+                if op.kind == 'call' and op.path:
+                    if path_ends(op.path, ('_files', '_out', 'append')):
+                        out += 1
+                    elif path_ends(op.path, ('_files', '_out', 'remove')):
+                        out = max(0, out - 1)
+            a = node.ast
+            if lab not in ('e', 'eb') and node.kind == 'stmt' and \
+                    node.frame.parent is None and isinstance(a, ast.Assign):
+                d = dict(kinds)
+                for t in a.targets:
+                    for nm in ast.walk(t):
+                        if isinstance(nm, ast.Name):
+                            d.pop(nm.id, None)
+                            if looks_up(a.value):
+                                d[nm.id] = 'in' if out > 0 else 'outside'
+                kinds = frozenset(d.items())
+            return (out, kinds)
+
+        def at(node, st, F=F):
+            out, kinds = st
+            if out > 0 and node.frame.parent is None and node.kind in (
+                    'stmt', 'return', 'test'):
+                k = dict(kinds)
+                for op in F.ops(node):
+                    if op.kind == 'call':
+                        for a_ in op.ast.args:
+                            if isinstance(a_, ast.Name) and k.get(
+                                    a_.id) == 'outside':
+                                return Violation(
+                                    '`%s` reads through a pooled handle at '
+                                    'a position (`%s`) that was looked up in '
+                                    'the index BEFORE the handle was checked '
+                                    'out: a pack can swap file and index in '
+                                    'between, and the read hits another '
+                                    'record of the packed file '
+                                    '(CorruptedDataError or wrong data for a '
+                                    'current object)' % (
+                                        ast.unparse(op.ast)[:60], a_.id))
+            return st
+
+        vs, stats = explore(g, (0, frozenset()), at=at, edge=edge)
+        R.count(stats)
+        for v in vs:
+            R.violation(v.node, v.message, g, v.path)
+    R.require(n >= 2, 'expected FileStorage.load and loadBefore to use the '
+              'file pool')
